@@ -138,6 +138,11 @@ fn all_pairs<T: Clone + PartialOrd + Debug, N: ArrayLength>(ctx: &mut Ctx, tname
         let d = format!("C13;pairs;T={tname};N={n};a={ca}");
         ctx.case(&d, || {
             let a = build::<T, N>(alphabet, ca);
+            // an array compared with itself (same object): still the slices' answer (NaN != NaN)
+            cmp_pair(&a, &a)?;
+            if let Some(o) = ord {
+                o(&a, &a)?;
+            }
             let mut distinct = std::collections::BTreeSet::new();
             for cb in 0..total {
                 let b = build::<T, N>(alphabet, cb);
